@@ -7,8 +7,10 @@ to the same numbers
 
 This is the part of the equivalence claim ("equivalent ASCII/binary AIGER files parse to the same
 problem") that is proved at the level of bytes; together with `OxiddModel.Aiger.aiger_ascii_binary_same`
-(translation of the numbers) it covers one gate. The statement for whole files is tested, not
-proved (stream `aigparse`, cases `pair-…`).
+(translation of the numbers) it covers one gate. Whole files: `Files.lean` proves
+`parse c (printAag P) = parse c' (printAig P) = .ok (canon P)` for the combinational AIGER 1.0 subset
+from these lemmas; files with latches, AIGER 1.9 sections, symbols or non-canonical numbering are
+tested, not proved (stream `aigparse`, cases `pair-…`, `perm-…`).
 -/
 namespace OxiddModel.AigerParse
 
@@ -158,7 +160,8 @@ problem, written as the ASCII line `lhs in1 in2\n` and as the binary delta pair,
 three numbers by both tokenisers (`andLine` / `decodeAnd`), and both branches translate each number
 to the same `Literal` (`mapAscii (canonicalMap …)` = `makeLiteral`).
 
-Full statement (not proved; tested by the `pair` cases of stream `aigparse`):
+Full statement (proved in `Files.lean` for the combinational AIGER 1.0 subset, `aag_aig_equiv`;
+otherwise tested by the `pair` cases of stream `aigparse`):
 `parse c (printAag P) = parse c (printAig P) = .ok (canon P)` for every structured problem `P` in
 the domain of the binary format, and `parse c (printAag P) = .ok (canon P)` for every admissible
 ASCII problem. -/
